@@ -56,7 +56,12 @@ def cases(seed, tier):
         if not p['key']:
             p['key'] = ['ssh-ed25519']
         p['keys'] = gen.rand_keys(rng, p['key'])
-        p['lang'] = rng.choice([[], [], ['en-US']])
+        p['lang'] = rng.choice([[], [], ['en-US'], ['fr-CA', 'zh-Hant'], ['gr\u00fc\u00df-DE']])
+        if rng.random() < 0.3:
+            # names with multi-byte UTF-8 characters: character count and byte count of the encoded list differ
+            p[rng.choice(['enc', 'mac'])].append(rng.choice(['caf\u00e9-cipher@example.com', '\u5bc6\u7801@example.com', 'na\u00efve-mac']))
+        if rng.random() < 0.1:
+            p[rng.choice(['enc', 'mac'])].append(gen.nonutf8_name(rng))
         if rng.random() < 0.4:
             p['pad_extra'] = rng.randrange(0, 31)
             p['pad_byte'] = rng.choice([0, 0xff, 0x41, rng.randrange(256)])
@@ -114,9 +119,23 @@ def run_case(case, ctx):
             out.append(viol('C10 well-framed packets are not accepted alike under segmentation (report differs from the unsegmented run)',
                             'net=%r\nfirst differing lines (unsegmented, segmented): %r' % (case['net'], diff)))
     srv = rec['servers'][0]
-    own = {c: [wire.shown(x) for x in p.get(c, [])] for c in ('kex', 'key', 'enc', 'mac', 'comp', 'lang')}
-    own['comp'] = [wire.shown(x) for x in p.get('comp', ['none'])]
+    def lat(x):
+        return wire.nb(x).decode('latin-1')
+
+    def utf8ok(lst):
+        try:
+            for x in lst:
+                wire.nb(x).decode('utf-8')
+            return True
+        except UnicodeDecodeError:
+            return False
+    # what the server put on the wire, byte for byte (the server log holds bytes as latin-1 text)
+    own = {c: [lat(x) for x in p.get(c, [])] for c in ('kex', 'key', 'enc', 'mac', 'comp', 'lang')}
+    own['comp'] = [lat(x) for x in p.get('comp', ['none'])]
+    echo_ok = {c: utf8ok(p.get(c, [])) for c in own}
     for c in srv['conns']:
+        if c.get('script_error'):
+            out.append(viol('C10 a message from the tool cannot be decoded by the independent decoder', 'conn %d: %s' % (c['ordinal'], c['script_error'])))
         for f in c['frames']:
             if 'error' in f:
                 out.append(viol('C10 packet from the tool does not frame', 'conn %d: %s' % (c['ordinal'], f['error'])))
@@ -142,7 +161,7 @@ def run_case(case, ctx):
                 if not (k['key'] == own['key'] or (len(k['key']) == 1 and k['key'][0] in own['key'])):
                     out.append(viol('C10 probe KEXINIT host-key list is neither the probed type nor the server list', 'sent %r server %r' % (k['key'], own['key'])))
                 for fld, cat in (('enc_c2s', 'enc'), ('enc_s2c', 'enc'), ('mac_c2s', 'mac'), ('mac_s2c', 'mac'), ('comp_c2s', 'comp'), ('comp_s2c', 'comp'), ('lang_c2s', 'lang'), ('lang_s2c', 'lang')):
-                    if k[fld] != own[cat]:
+                    if echo_ok[cat] and k[fld] != own[cat]:
                         out.append(viol('C10 probe KEXINIT does not echo the server %s list' % cat, 'field %s sent %r want %r' % (fld, k[fld][:6], own[cat][:6])))
                         break
     return {'violations': out, 'keys': keys, 'counters': {'frames': sum(len(c['frames']) for c in srv['conns'])}}
